@@ -82,6 +82,14 @@ def run_case(case, ctx):
     kind = DATA[sub % len(DATA)]
     lname, lvals = LABELS[(sub // len(DATA)) % len(LABELS)]
     X, yi = make_data(rng, kind)
+    xdt = ["float64", "float64", "float32", "float64", "float32"][(sub // 3) % 5]
+    if xdt == "float32":
+        X = X.astype(numpy.float32)       # single-precision features at fit and at predict time
+    ctx.cls("x_dtype=" + xdt)
+    # node classifiers are re-evaluated here on the whole batch, the library evaluates them on the rows that reach the
+    # node: in single precision the two differ in the last bits (1e-7), so rows within `tol` of a threshold are not
+    # judged by the independent routing oracle, and probabilities are compared at `tol`
+    tol = TOL if xdt == "float64" else 2e-6
     y = numpy.array(lvals, dtype=object if lname == "str" else None)[yi]
     if lname == "str":
         y = y.astype(str)
@@ -176,7 +184,7 @@ def run_case(case, ctx):
     depth_of = {nd.index: dp for nd, dp in nodes}
 
     # ---- behaviour on the training rows (exact ties live here) and on new rows
-    for qname, Q in (("train", X), ("new", rng.randn(40, X.shape[1]) * 1.5)):
+    for qname, Q in (("train", X), ("new", (rng.randn(40, X.shape[1]) * 1.5).astype(X.dtype))):
         Qin = Q
         if frame:
             # the batch as a frame whose index is a permutation of the positions
@@ -226,7 +234,7 @@ def run_case(case, ctx):
                 p1 = P1[a][i, 1]
                 thr = by_index[a].threshold
                 side = parent[b][1]
-                if abs(p1 - thr) <= TOL:
+                if abs(p1 - thr) <= tol:
                     tie = True
                     continue
                 if (p1 > thr) != (side == "above"):
@@ -236,7 +244,7 @@ def run_case(case, ctx):
             if bad is None:
                 nd = by_index[t]
                 p1 = P1[t][i, 1]
-                if abs(p1 - nd.threshold) <= TOL:
+                if abs(p1 - nd.threshold) <= tol:
                     tie = True
                 else:
                     nxt = nd.above if p1 > nd.threshold else nd.below
@@ -251,7 +259,7 @@ def run_case(case, ctx):
             ctx.hit("proba.terminal")
             if not numpy.isfinite(P1[t][i]).all():
                 ctx.excluded("base-estimator-returns-nan")
-            elif not numpy.allclose(proba[i], P1[t][i], rtol=0, atol=TOL):
+            elif not numpy.allclose(proba[i], P1[t][i], rtol=0, atol=tol):
                 ctx.violation(K + "proba/not-terminal-node%s" % ("/tie-row" if tie else ""),
                               "row %d (%s): predict_proba %r is not the probabilities %r of node %d ending its "
                               "decision_path" % (i, qname, proba[i].tolist(), P1[t][i].tolist(), t), cfg=cfg)
@@ -259,20 +267,24 @@ def run_case(case, ctx):
         ctx.excluded("tie-row-direction-not-judged", n_tie)
         if n_tie:
             ctx.cls("rows-with-exact-tie", n_tie)
-        base_ok = all(numpy.isfinite(v).all() and numpy.allclose(v.sum(axis=1), 1, rtol=0, atol=1e-9)
+        base_ok = all(numpy.isfinite(v).all() and numpy.allclose(v.sum(axis=1), 1, rtol=0, atol=max(1e-9, tol))
                       for v in P1.values())
         if not base_ok:
             # e.g. GaussianNB on duplicated points (variance ~1e-42) returns rows [1, 1] itself
             ctx.excluded("base-estimator-rows-do-not-sum-to-one")
-        elif not numpy.allclose(proba.sum(axis=1), 1, rtol=0, atol=1e-9):
+        elif not numpy.allclose(proba.sum(axis=1), 1, rtol=0, atol=max(1e-9, tol)):
             ctx.violation(K + "proba/rows-not-summing-to-one", "a probability row does not sum to one", cfg=cfg)
         ctx.hit("predict.threshold")
-        sure = numpy.isfinite(proba[:, 1]) & (numpy.abs(proba[:, 1] - 0.5) > TOL)
+        sure = numpy.isfinite(proba[:, 1]) & (numpy.abs(proba[:, 1] - 0.5) > tol)
         exp = numpy.asarray(m.classes_)[(proba[:, 1] >= 0.5).astype(int)]
-        badp = [j for j in range(len(Q)) if sure[j] and pred[j] != exp[j]]
+        # predict is a function of the model's own probabilities: exact, ties at 0.5 included (>= 0.5 -> classes_[1])
+        badp = [j for j in range(len(Q)) if numpy.isfinite(proba[j, 1]) and pred[j] != exp[j]]
         if badp:
-            ctx.violation(K + "predict/not-classes-at-0.5", "row %d: predict=%r but p1=%.6g and classes_=%r" % (
-                badp[0], pred[badp[0]], proba[badp[0], 1], classes), cfg=cfg)
+            tie = not sure[badp[0]]
+            ctx.violation(K + "predict/not-classes-at-0.5" + ("/tie-row" if tie else ""),
+                          "row %d: predict=%r but p1=%.17g and classes_=%r" % (
+                              badp[0], pred[badp[0]], proba[badp[0], 1], classes), cfg=cfg)
+        ctx.extra["tie_rows_at_0.5"] = ctx.extra.get("tie_rows_at_0.5", 0) + int((proba[:, 1] == 0.5).sum())
         if not set(pred.tolist()) <= set(classes):
             ctx.violation(K + "predict/label-outside-classes", "predict returned %r" % (sorted(set(pred.tolist())),),
                           cfg=cfg)
@@ -308,7 +320,7 @@ def run_case(case, ctx):
                     break
                 t = max(marked, key=lambda j: dep2[j])
                 pt = numpy.asarray(by2[t].estimator.predict_proba(X[:10]))[i]
-                if numpy.isfinite(pt).all() and not numpy.allclose(Pn[i], pt, atol=TOL, rtol=0):
+                if numpy.isfinite(pt).all() and not numpy.allclose(Pn[i], pt, atol=tol, rtol=0):
                     ctx.violation(K + "proba/not-terminal-node/after-refit", "after refit predict_proba is not the "
                                   "terminal node's probabilities", cfg=cfg)
                     break
